@@ -319,7 +319,7 @@ func (p *Parser) do(handler Handler, keyword, val string) error {
 		case strings.HasPrefix(val, "term="):
 			eval = strings.TrimPrefix(val, "term=") == p.term
 		default:
-			eval = strings.ToLower(val) == p.app
+			eval = strings.EqualFold(val, p.app)
 		}
 
 		p.conds = append(p.conds, eval)
